@@ -41,6 +41,10 @@ def preimport():
         pass
 
 
+class HarnessHookFailed(RuntimeError):
+    """the `pre` hook of run_cond raised inside the forked child (e.g. a private name it patches was renamed)"""
+
+
 class Result:
     def __init__(self, code, out, err, signaled=None):
         self.code = code
@@ -87,7 +91,17 @@ def run_cond(argv, cwd, env=None, stdin_data=None, pre=None, timeout=120):
                 os.environ.update(env)
             sys.argv = ["cond"] + list(argv)
             if pre is not None:
-                pre()
+                try:
+                    pre()
+                except BaseException:  # pylint: disable=broad-except
+                    # the harness's own hook (monkey-patching of private names, tracing) could not be installed: this is
+                    # not behaviour of the tool -- reserved exit code, recognised by the parent
+                    import traceback
+
+                    sys.stderr.write("HARNESS-PRE-HOOK-FAILED\n" + traceback.format_exc())
+                    sys.stderr.flush()
+                    code = 71
+                    os._exit(71)
             import conductor.__main__ as m  # pylint: disable=import-outside-toplevel
 
             try:
@@ -129,6 +143,9 @@ def run_cond(argv, cwd, env=None, stdin_data=None, pre=None, timeout=120):
     shutil.rmtree(d, ignore_errors=True)
     if os.WIFSIGNALED(status):
         return Result(-os.WTERMSIG(status), out, err, signaled=os.WTERMSIG(status))
+    if os.WEXITSTATUS(status) == 71 and "HARNESS-PRE-HOOK-FAILED" in err:
+        # escapes the check: reported as `check-aborted ... no-failing-input-found` (a broken tie, not a failing input)
+        raise HarnessHookFailed(err[-1500:])
     return Result(os.WEXITSTATUS(status), out, err)
 
 
